@@ -329,6 +329,11 @@ func init() {
 					m = c06Gen(rng)
 				default:
 					m = c07Gen(rng)
+					for strings.Contains(m.Prog.Main, "-|_") {
+						// a value that is a bare alternation is pasted into prefix and suffix lines as it is (outside the
+						// domain of the plain reading, like configured patterns in C04); C07 keeps those programs
+						m = c07Gen(rng)
+					}
 				}
 				m.Prog.Lane = "inc:" + m.Prog.Lane
 				raTerminators(m.Prog, i)
